@@ -110,6 +110,18 @@ def concretise(sc: Dict[str, Any], tmp: Path, h: int) -> Tuple[List[str], Dict[s
             doc["run_space"]["blocks"] = [{"mode": "by_position", "context": {"factor": [2.0, 3.0]}},
                                           {"mode": "by_position", "context": {"other": [1.0]}}]
             doc["run_space"]["combine"] = "by_position"
+        if h % 5 == 4:
+            # THREE blocks, the same key declared by the first (inline) and by the third (a source column): not neighbours
+            (tmp / "dup.csv").write_text("factor,extra\n10.0,1\n20.0,2\n")
+            doc["run_space"]["blocks"] = [{"mode": "by_position", "context": {"factor": [2.0, 3.0]}},
+                                          {"mode": "by_position", "context": {"trigger": [0.0, 0.0]}},
+                                          {"mode": "by_position", "source": {"format": "csv", "path": "dup.csv"}}]
+            doc["run_space"]["combine"] = "by_position"
+        elif h % 3 == 2:
+            # a row-wise source whose LATER row lacks a key that the pipeline needs (the first row is complete)
+            (tmp / "rows.ndjson").write_text('{"factor": 2.0, "trigger": 0.0}\n{"factor": 3.0, "trigger": 0.0}\n{"trigger": 0.0}\n')
+            doc["run_space"]["blocks"] = [{"mode": "by_position", "source": {"format": "ndjson", "path": "rows.ndjson"}}]
+            doc["run_space"]["combine"] = "combinatorial"
     elif d == "runspace_over_cap":
         if h % 2 and planned >= 1:
             argv += ["--run-space-max-runs", str(planned - 1)]
